@@ -102,6 +102,34 @@ func c03DeclProgram(rng *core.Rand, pkg string) (src, client, want string) {
 			pr(t.show(fmt.Sprintf("m%df%d", r, f)), t.text(ks[f]+50))
 		}
 	}
+	// names that Go predeclares (builtin functions, constants, types) are ordinary identifiers in
+	// Folang and in Go: fields, functions and a package variable named like them keep their names
+	{
+		fpool := []string{"min", "max", "len", "cap", "new", "copy", "clear", "print", "println", "real", "imag", "iota", "error", "append", "delete", "close", "complex", "recover", "make"}
+		gpool := []string{"min", "max", "clear", "copy", "cap", "real", "imag", "print", "iota", "close", "delete"}
+		core.Shuffle(rng, fpool)
+		core.Shuffle(rng, gpool)
+		nf := 2 + rng.Intn(4)
+		var defs, inits, lit, reads []string
+		sum := 0
+		for f := 0; f < nf; f++ {
+			k := next()
+			defs = append(defs, fpool[f]+": int")
+			inits = append(inits, fmt.Sprintf("%s=a + %d", fpool[f], f))
+			lit = append(lit, fmt.Sprintf("%s: %d", fpool[f], k))
+			reads = append(reads, "r."+fpool[f])
+			sum += k
+		}
+		fn1, fn2, gv := gpool[0], gpool[1], gpool[2]
+		fmt.Fprintf(&fo, "type NameRec = {%s}\n\nlet %s (r:NameRec) =\n  %s\n\nlet %s (a:int) =\n  {%s}\n\nlet %s = 7700 + %d\n\n", strings.Join(defs, "; "), fn1, strings.Join(reads, " + "), fn2, strings.Join(inits, "; "), gv, kk)
+		fmt.Fprintf(&gob, "\tnrec := NameRec{%s}\n", strings.Join(lit, ", "))
+		pr(fmt.Sprintf("%s(nrec)", fn1), fmt.Sprint(sum))
+		fmt.Fprintf(&gob, "\tnmk := %s(%d)\n", fn2, 100*kk)
+		for f := 0; f < nf; f++ {
+			pr("nmk."+fpool[f], fmt.Sprint(100*kk+f))
+		}
+		pr(gv, fmt.Sprint(7700+kk))
+	}
 	// unions
 	nu := 1 + rng.Intn(2)
 	for u := 0; u < nu; u++ {
@@ -533,7 +561,7 @@ func runC03(r *core.Run, tier string) {
 	if tier == "thorough" {
 		n = 2000
 	}
-	r.Rule("a case is one package: (a) a declaration package - records, unions, a generic record and a generic union, functions with unit parameter / unit result, a package variable, with field / payload / parameter types drawn from 13 types (basic, float, slices, 2-/3-tuples, function types, another record) - linked with a generated Go client written only against the documented representation (keyed struct literals, typed reads of every field, New_U_C called as a function or read as a variable as the rule says, type switch on U_C and .Value, functions called with parameters in order, package variable read); or (b) a package_info package - 3..6 signatures (package _ and a named package directory, plain or generic, arity 1..4) implemented in generated Go that logs name and arguments in the order received, called from Folang at every arity in full / partial / piped / explicitly instantiated forms with uniquely valued arguments; the program's stdout must equal the predicted text / call log; non-trivial = every package (>= 3 declarations or signatures); distinct by source hash")
+	r.Rule("a case is one package: (a) a declaration package - records, unions, a generic record and a generic union, functions with unit parameter / unit result, a package variable, with field / payload / parameter types drawn from 13 types (basic, float, slices, 2-/3-tuples, function types, another record) - linked with a generated Go client written only against the documented representation (a record, two functions and a package variable named like identifiers Go predeclares - min, max, len, clear, copy, ... - used under exactly those names; keyed struct literals, typed reads of every field, New_U_C called as a function or read as a variable as the rule says, type switch on U_C and .Value, functions called with parameters in order, package variable read); or (b) a package_info package - 3..6 signatures (package _ and a named package directory, plain or generic, arity 1..4) implemented in generated Go that logs name and arguments in the order received, called from Folang at every arity in full / partial / piped / explicitly instantiated forms with uniquely valued arguments; the program's stdout must equal the predicted text / call log; non-trivial = every package (>= 3 declarations or signatures); distinct by source hash")
 	r.Assume("the client is compiled in the same package as gen_x.go, as the tutorial describes", "external package directories are imported by full path")
 	var cases []*progCase
 	extras := map[string]map[string]string{}
